@@ -365,13 +365,29 @@ def r_no_reinit(c):
     m = c.model
     fd = m.func(D + "verify.verify_distributed_partition")
     helpers = _accumulating_helpers(fd)
-    tables = set(helpers.values())
+    # the accumulator tables: what nested helpers add into, and the graph that is
+    # handed to the cycle search
+    tables = set(helpers.values()) | {
+        x.args[0].id for x in ast.walk(fd) if isinstance(x, ast.Call)
+        and ast.unparse(x.func).split(".")[-1] == "compute_topological_order"
+        and x.args and isinstance(x.args[0], ast.Name)}
     if not tables:
-        raise AnalysisError("anchor vanished: accumulating helper in verify_distributed_partition")
+        raise AnalysisError("anchor vanished: part graph (accumulating helper / argument of "
+                            "compute_topological_order) in verify_distributed_partition")
     for tbl in sorted(tables):
-        def cl(n, tbl=tbl):
+        # a set that was stored as an entry of the table is that entry
+        aliases = {a.value.id for a in ast.walk(fd) if isinstance(a, ast.Assign)
+                   and isinstance(a.targets[0], ast.Subscript)
+                   and ast.unparse(a.targets[0].value) == tbl
+                   and isinstance(a.value, ast.Name)}
+
+        def cl(n, tbl=tbl, aliases=aliases):
             if isinstance(n, ast.Call) and isinstance(n.func, ast.Name) \
                     and helpers.get(n.func.id) == tbl:
+                return "ACC"
+            if isinstance(n, ast.Call) and isinstance(n.func, ast.Attribute) \
+                    and n.func.attr in ("add", "update") \
+                    and isinstance(n.func.value, ast.Name) and n.func.value.id in aliases:
                 return "ACC"
             if isinstance(n, ast.Call) and isinstance(n.func, ast.Attribute) \
                     and n.func.attr in ("add", "update") \
